@@ -2123,6 +2123,112 @@ def c05_insert_group(mir, ctx):
     return [g]
 
 
+# --------------------------------------------------------------------------
+# C13: structure of the expression constructors (what is folded, what is kept)
+# --------------------------------------------------------------------------
+
+def _c13_confirm(model, native):
+    out = native("native::c13::replay_constructors", {})
+    if not out.get("_ran"):
+        return None, "native replay did not run"
+    if out.get("_panicked"):
+        return True, "native constructor replay panicked: %s" % out.get("_panic_msg")
+    return (out.get("differs") == 1), (out.get("witness") or "all %s literal/column constructions evaluate alike natively" % out.get("checked"))
+
+
+def c13_constructor_group(mir, ctx):
+    """Expr::unop, Expr::binop, Expr::and, Expr::or on every combination of argument node kinds
+    (Literal, Column, UnOp, BinOp, And, Or), the nodes' contents opaque: the result is the literal
+    op.eval(values) exactly when every operand of unop/binop is a literal, and otherwise the node
+    UnOp/BinOp/And/Or holding the operator and the UNCHANGED operand trees in order.  Together with
+    the single-node evaluation laws decided by the Kani harnesses this gives, by induction on the
+    tree (on paper), that a constructed expression evaluates like the documented operators applied
+    bottom-up at any depth."""
+    src = open(os.path.join(REPO, "src/internal/expr.rs")).read()
+    av = enum_variants(src, "Ast")
+    for need in ("Literal", "UnOp", "BinOp", "And", "Or"):
+        if need not in av:
+            raise EncodingError("Ast has no variant %s" % need)
+
+    def node(tag, v):
+        return EnumV(variant=av.index(v), fields=[OpaqueV("%s.%d" % (tag, i)) for i in range(3)])
+
+    def vname(e):
+        return av[e.variant] if isinstance(e.variant, int) and 0 <= e.variant < len(av) else str(e.variant)
+
+    def same_node(x, tag, v):
+        x = x.target if isinstance(x, RefV) else x
+        return isinstance(x, EnumV) and vname(x) == v and [getattr(f, "what", None) for f in x.fields[:3]] == ["%s.%d" % (tag, i) for i in range(3)]
+
+    def unbox(x):
+        return x.fields[0] if isinstance(x, TupleV) and len(x.fields) == 1 else x
+
+    def m_eval(tag):
+        return lambda ex, callee, args, pc, events: [(pc, events, OpaqueV("%s(%s)" % (tag, ",".join(getattr(ex.load(a), "what", repr(ex.load(a))) for a in args))))]
+
+    models = [(r"^UnOp::eval$", m_eval("UnOp::eval")), (r"^BinOp::eval$", m_eval("BinOp::eval")),
+              (r"Box::<Ast>::new$", lambda ex, callee, args, pc, events: [(pc, events, TupleV([ex.load(args[0])]))])]
+    g = Group("constructor_structure", ["expr::Expr::unop", "expr::Expr::binop", "expr::Expr::and", "expr::Expr::or"], confirm=_c13_confirm,
+              note="for every combination of operand node kinds: unop/binop fold to Literal(op.eval(..)) exactly when all operands are literals; "
+                   "otherwise the result is the UnOp/BinOp node with the same operator and the unchanged operand trees in order; and/or always "
+                   "build the And/Or node over the unchanged operands (no folding, so the right operand stays unevaluated until the left is known)")
+
+    def find1(name):
+        c = [f for n, fs in mir.fns.items() for f in fs if re.search(r"expr::<impl at [^>]*>::%s$" % name, n) and f.ret and f.ret.strip() == "Expr"]
+        if len(c) != 1:
+            raise EncodingError("Expr::%s not found uniquely (%d)" % (name, len(c)))
+        return c[0]
+
+    def ast_of(o):
+        v = o.value
+        if isinstance(v, EnumV) and v.variant == "Expr" and v.fields:
+            return v.fields[0]
+        raise EncodingError("constructor does not return an Expr struct: %r" % (v,))
+
+    def verdict(name, ok, why, pc):
+        g.queries.append(Query("%s_%d" % (name, len(g.queries)), ["false"] if ok else list(pc), "unsat", note=why))
+
+    def runs(f, args, what):
+        ex = M.Exec(mir, ctx, models=models, havoc_unknown=True)
+        ex.no_inline = [r"^Value::", r"^UnOp::", r"^BinOp::", r"^Row::", r"^Table::"]   # node contents are opaque: whatever inspects them is an arbitrary result
+        outs = ex.run(f, args)
+        rets = [o for o in outs if o.kind == "return"]
+        for o in outs:
+            if o.kind == "panic":
+                verdict("panic", False, "%s can panic: %s" % (what, o.msg), o.pc)
+        if not rets:
+            raise EncodingError("%s: no returning path" % what)
+        return rets
+
+    f_un, f_bin, f_and, f_or = find1("unop"), find1("binop"), find1("and"), find1("or")
+    for va in av:
+        for o in runs(f_un, [OpaqueV("op"), node("a", va)], "Expr::unop(%s)" % va):
+            r = ast_of(o)
+            if va == "Literal":
+                ok = isinstance(r, EnumV) and vname(r) == "Literal" and getattr(r.fields[0], "what", "") in ("UnOp::eval(op,a.0)",)
+                verdict("unop_literal", ok, "a unary operator applied to a literal must fold to Literal(op.eval(value)); got %r" % (r,), o.pc)
+            else:
+                ok = isinstance(r, EnumV) and vname(r) == "UnOp" and getattr(r.fields[0], "what", "") == "op" and same_node(unbox(r.fields[1]), "a", va)
+                verdict("unop_%s" % va, ok, "a unary operator applied to a %s node must build UnOp(op, that node unchanged); got %r" % (va, r), o.pc)
+        for vb in av:
+            for o in runs(f_bin, [OpaqueV("op"), node("a", va), node("b", vb)], "Expr::binop(%s,%s)" % (va, vb)):
+                r = ast_of(o)
+                if va == "Literal" and vb == "Literal":
+                    ok = isinstance(r, EnumV) and vname(r) == "Literal" and getattr(r.fields[0], "what", "") == "BinOp::eval(op,a.0,b.0)"
+                    verdict("binop_literals", ok, "a binary operator applied to two literals must fold to Literal(op.eval(v1, v2)); got %r" % (r,), o.pc)
+                else:
+                    ok = (isinstance(r, EnumV) and vname(r) == "BinOp" and getattr(r.fields[0], "what", "") == "op"
+                          and same_node(unbox(r.fields[1]), "a", va) and same_node(unbox(r.fields[2]), "b", vb))
+                    verdict("binop_%s_%s" % (va, vb), ok, "a binary operator applied to (%s, %s) must build BinOp(op, left unchanged, right unchanged); got %r" % (va, vb, r), o.pc)
+            for fn_, nm in ((f_and, "And"), (f_or, "Or")):
+                for o in runs(fn_, [EnumV(variant="Expr", fields=[node("a", va)]), EnumV(variant="Expr", fields=[node("b", vb)])], "Expr::%s(%s,%s)" % (nm.lower(), va, vb)):
+                    r = ast_of(o)
+                    ok = isinstance(r, EnumV) and vname(r) == nm and same_node(unbox(r.fields[0]), "a", va) and same_node(unbox(r.fields[1]), "b", vb)
+                    verdict("%s_%s_%s" % (nm.lower(), va, vb), ok, "%s applied to (%s, %s) must build the %s node over the unchanged operands; got %r" % (nm.upper(), va, vb, nm, r), o.pc)
+    g.witness.append(Query("w", [], "sat"))
+    return [g]
+
+
 def c05_all(mir, ctx):
     return c05_update_group(mir, ctx) + c05_insert_group(mir, ctx)
 
@@ -2145,7 +2251,7 @@ def _proto(which):
 
 BUILDERS = {"C18": c18_groups, "C19": c19_groups, "C14": c14_groups, "C20": c20_all, "C09": c20_groups,
             "C01": _proto({"mutators", "finish", "close"}), "C10": _proto({"mutators", "finish"}),
-            "C15": _proto({"finish", "close"}), "C16": _proto({"readonly"}), "C08": c08_all, "C04": _proto({"reject"}), "C11": c11_all, "C07": c07_insert_gate_group, "C12": c12_all, "C05": c05_all}
+            "C15": _proto({"finish", "close"}), "C16": _proto({"readonly"}), "C08": c08_all, "C04": _proto({"reject"}), "C11": c11_all, "C07": c07_insert_gate_group, "C12": c12_all, "C05": c05_all, "C13": c13_constructor_group}
 
 
 def native_confirm_c18(vals, work):
